@@ -7,6 +7,7 @@ Require Import Urcu.Defer.DeferRing.
 Require Import Urcu.Defer.DeferRun.
 Require Import Urcu.Gen.Generated.
 Require Import Urcu.Defer.DeferWrap.
+Require Import Urcu.Defer.DeferGp.
 Import ListNotations.
 
 (* decode (encode l) = l for every list of (function, argument) bit patterns and every initial last-function value *)
@@ -20,8 +21,8 @@ Theorem C13_enqueue_preserves_ring_invariant :
     forall SIZE : N,
     (4 <= SIZE)%N ->
     forall (r : ring) (f p : N),
-    Inv SIZE r ->
-    Inv SIZE (fst (enq SIZE r f p)) /\
+    DeferRing.Inv SIZE r ->
+    DeferRing.Inv SIZE (fst (enq SIZE r f p)) /\
     (snd (enq SIZE r f p) = Some [] \/ snd (enq SIZE r f p) = Some (pending r)).
 Proof. exact (@Urcu.Defer.DeferRing.Inv_enq). Qed.
 Print Assumptions C13_enqueue_preserves_ring_invariant.
@@ -31,8 +32,8 @@ Theorem C13_exactly_once_in_order :
     forall SIZE : N,
     (4 <= SIZE)%N ->
     forall (ops : list dop) (r : ring),
-    Inv SIZE r ->
-    Inv SIZE (fst (drun SIZE ops r)) /\
+    DeferRing.Inv SIZE r ->
+    DeferRing.Inv SIZE (fst (drun SIZE ops r)) /\
     pending r ++ queued ops = snd (drun SIZE ops r) ++ pending (fst (drun SIZE ops r)).
 Proof. exact (@Urcu.Defer.DeferRun.defer_ring_exact). Qed.
 Print Assumptions C13_exactly_once_in_order.
@@ -42,13 +43,14 @@ Theorem C13_barrier_flushes :
     forall SIZE : N,
     (4 <= SIZE)%N ->
     forall r : ring,
-    Inv SIZE r -> pending (fst (dstep SIZE r DBarrier)) = [] /\ snd (dstep SIZE r DBarrier) = pending r.
+    DeferRing.Inv SIZE r ->
+    pending (fst (dstep SIZE r DBarrier)) = [] /\ snd (dstep SIZE r DBarrier) = pending r.
 Proof. exact (@Urcu.Defer.DeferRun.defer_barrier_flushes). Qed.
 Print Assumptions C13_barrier_flushes.
 
 (* the freshly registered (and, after the F1 fix, re-registered) queue satisfies the invariant *)
 Theorem C13_initial_ring_ok :
-    forall SIZE : N, (4 <= SIZE)%N -> Inv SIZE ring0.
+    forall SIZE : N, (4 <= SIZE)%N -> DeferRing.Inv SIZE ring0.
 Proof. exact (@Urcu.Defer.DeferRun.Inv_ring0). Qed.
 Print Assumptions C13_initial_ring_ok.
 
@@ -76,10 +78,36 @@ Theorem C13_counters_wrap :
     (4 <= SIZE)%N ->
     (exists k : N, W = (k * SIZE)%N /\ (2 <= k)%N) ->
     forall (w : wring) (r : ring) (f p : N),
-    Inv SIZE r ->
+    DeferRing.Inv SIZE r ->
     rep W w r ->
     rep W (fst (wenq SIZE W w f p)) (fst (enq SIZE r f p)) /\
     snd (wenq SIZE W w f p) = snd (enq SIZE r f p).
 Proof. exact (@Urcu.Defer.DeferWrap.rep_enq). Qed.
 Print Assumptions C13_counters_wrap.
+
+(* abstract barrier algorithm (snapshot of the heads, grace period, drain of exactly the snapshotted calls; one barrier at a time; any number of queuing threads and readers, calls queued while the grace period is in flight): a call that is about to be run was queued before every read-side section that is still open began *)
+Theorem C13_call_after_grace_period_all_runs :
+    forall s : st,
+    reach false s ->
+    forall (k : nat) (snap : nat -> nat) (t c : nat) (rest : list nat),
+    bph s = B_Drain k snap ->
+    dq s t = c :: rest -> 0 < snap t -> forall r b : nat, sect s r = Some b -> stamp s c <= b.
+Proof. exact (@Urcu.Defer.DeferGp.defer_after_gp_all_runs). Qed.
+Print Assumptions C13_call_after_grace_period_all_runs.
+
+(* what a thread queued = what was run (in order) followed by what is pending: nothing lost, duplicated or reordered by barriers *)
+Theorem C13_conservation :
+    forall (s : st) (t : nat), Inv s -> dall s t = ddone s t ++ dq s t.
+Proof. exact (@Urcu.Defer.DeferGp.defer_conservation). Qed.
+Print Assumptions C13_conservation.
+
+(* the variant that drains up to the head re-read after the grace period runs a call while a section that began before it was queued is still open (five-step run) *)
+Theorem C13_fresh_head_refuted :
+    exists (s : st) (t c : nat) (rest : list nat) (r b k : nat) (snap : nat -> nat),
+    reach true s /\
+    bph s = B_Drain k snap /\
+    dq s t = c :: rest /\
+    sect s r = Some b /\ b < stamp s c /\ (exists s' : st, step true s (BRun t) s').
+Proof. exact (@Urcu.Defer.DeferGp.defer_fresh_head_refuted). Qed.
+Print Assumptions C13_fresh_head_refuted.
 
